@@ -143,6 +143,13 @@ class _Strip(ast.NodeTransformer):
         self.generic_visit(node)
         if self.removed > before:
             node._vrt_stripped = True
+        # [glue item 11] a bare `except:` that does NOT re-raise (main.enip_srv_udp's per-datagram handler) would also swallow
+        # CrossHair's own path-steering exceptions (BaseException subclasses) and corrupt the exploration: narrow it to
+        # `except Exception:` -- identical for every exception the code under analysis can raise.
+        if node.type is None and not any(isinstance(n, ast.Raise) and n.exc is None for n in ast.walk(node)):
+            node.type = ast.copy_location(ast.Name(id='Exception', ctx=ast.Load()), node)
+            STATS.setdefault('delog_bare_except', 0)
+            STATS['delog_bare_except'] += 1
         return node
 
     def visit_If(self, node):
@@ -361,6 +368,7 @@ MISS = _Miss()
 HASH_WHITELIST = {
     ('automata.py', 'run'), ('automata.py', 'delegate'), ('automata.py', 'loop'),
     ('defaults.py', '__init__'),
+    ('device.py', 'forward_open'),      # Connection_Manager.forwards keyed by (host, port, O->T id): equal hashes => dict falls back to ==, which stays symbolic
 }
 
 
